@@ -481,11 +481,27 @@ for mac in ('ascent', 'ascent_par'):
     P('inc_pasted_' + sfx, [], [], macro=mac, body=['pub struct P;', 'relation category(i32, i32);', 'relation item(i32, i32);', 'relation cheapest(i32, i32);', 'relation total(i32, i32);',
       'cheapest(c, m) <-- category(c, shelf), agg m = min(p) in item(c, p);', 'total(c, s) <-- category(c, _), agg s = sum(p) in item(c, p), if s > 0;',
       'relation out(i32);', 'out(m) <-- cheapest(_, m);'], tags=['twin'])
+# the program-level attributes of a program with an include are those of the pasted program
+_PASTED3 = ['pub struct P;', 'relation category(i32, i32);', 'relation item(i32, i32);', 'relation cheapest(i32, i32);', 'relation total(i32, i32);',
+            'cheapest(c, m) <-- category(c, shelf), agg m = min(p) in item(c, p);', 'total(c, s) <-- category(c, _), agg s = sum(p) in item(c, p), if s > 0;',
+            'relation out(i32);', 'out(m) <-- cheapest(_, m);']
+for sfx, mac, at in (('attr_mrt', 'ascent', ['measure_rule_times']), ('attr_to', 'ascent', ['generate_run_timeout']),
+                     ('attr_irp', 'ascent_par', ['inter_rule_parallelism']), ('attr_two', 'ascent_par', ['measure_rule_times', 'generate_run_timeout'])):
+    nm = 'src3_' + sfx
+    P('inc_' + sfx, [], [], macro=mac, attrs=at, pre=SRC3 % nm, body=['pub struct P;', 'include_source!(%s);' % nm, 'relation out(i32);', 'out(m) <-- cheapest(_, m);'],
+      tags=['twin'], twin=('inc_pasted_' + sfx, 'C'))
+    P('inc_pasted_' + sfx, [], [], macro=mac, attrs=at, body=_PASTED3, tags=['twin'])
 SRC4 = 'ascent::ascent_source! { %s:\n      relation edge(i32, i32, i32);\n      lattice dist(i32, i32, i32);\n      dist(x, y, *w) <-- edge(x, y, w);\n      relation not3(i32, i32);\n      relation n3(i32, usize);\n      not3(x, y) <-- edge(x, y, _), !dist(x, y, 3);\n      n3(x, c) <-- edge(x, _, w), agg c = count() in dist(x, _, w);\n   }'
 nm = 'src4_lat'
 P('inc_lat', [], [], macro='ascent', pre=SRC4 % nm, body=['pub struct P;', 'include_source!(%s);' % nm], tags=['twin'], twin=('inc_pasted_lat', 'C'))
 P('inc_pasted_lat', [], [], macro='ascent', body=['pub struct P;', 'relation edge(i32, i32, i32);', 'lattice dist(i32, i32, i32);', 'dist(x, y, *w) <-- edge(x, y, w);',
   'relation not3(i32, i32);', 'relation n3(i32, usize);', 'not3(x, y) <-- edge(x, y, _), !dist(x, y, 3);', 'n3(x, c) <-- edge(x, _, w), agg c = count() in dist(x, _, w);'], tags=['twin'])
+# relation initialisers are evaluated in textual order, whatever the relations are called
+P('init_order_run', ['relation zeta(i32) = mk(v, 1)', 'relation alpha(i32) = mk(v, 2)', 'relation mid(i32) = mk(v, 3)', 'relation out(i32)'],
+  ['out(x) <-- zeta(x), alpha(x), mid(x)'], macro='ascent_run', params='v: &[i32]',
+  pre='   pub fn mk(v: &[i32], k: i32) -> Vec<(i32,)> { v.iter().map(|x| (x * k,)).collect() }', tags=['run', 'init_order'])
+P('init_order', ['relation zeta(i32) = mk(1)', 'relation alpha(i32) = mk(2)', 'relation mid(i32) = mk(3)', 'relation out(i32)'],
+  ['out(x) <-- zeta(x), alpha(x), mid(x)'], pre='   pub fn mk(k: i32) -> Vec<(i32,)> { vec![(k,), (k + 1,)] }', tags=['init_order'])
 # captured locals named like locals of the generated code
 P('run_names', ['relation a(i32)', 'relation b(i32)', 'relation c(i32)', 'relation out(i32)'],
   ['a(*v) <-- for v in input.iter()', 'b(x) <-- a(x)', 'c(x) <-- a(x)', 'out(x) <-- a(x), b(x), c(x), if any_rel_empty', 'out(x + cl1_val) <-- a(x), b(x)'],
